@@ -258,6 +258,7 @@ func (ex *Exec) resetPath(prefix []int64) {
 	ex.guard = nil
 	ex.spec = 0
 	ex.rngCache = map[int]rng{}
+	ex.decDigits = map[int]decDigit{}
 	ex.realRange = map[int]rint{}
 	ex.realInt = map[int]bool{}
 	ex.emitted = nil
